@@ -57,23 +57,68 @@ def times_of(cs, lang=None):
     return out
 
 
+def make_reader(fmt, opts=None):
+    if fmt == "srt":
+        return SRTReader()
+    if fmt == "vtt":
+        strict, shift = opts
+        return WebVTTReader(ignore_timing_errors=not strict, time_shift_milliseconds=shift)
+    if fmt == "mdvd":
+        return MicroDVDReader()
+    if fmt in ("dfxp", "dfxp-tree"):
+        return DFXPReader()
+    if fmt in ("sami", "sami-tree"):
+        return SAMIReader()
+    raise ValueError(fmt)
+
+
+def extract(fmt, cs, lang=None):
+    if fmt == "dfxp":
+        return times_of(cs, lang)
+    if fmt == "sami":
+        return {l: times_of(cs, l) for l in cs.get_languages()}
+    if fmt in ("dfxp-tree", "sami-tree"):
+        return [[l, times_of(cs, l)] for l in cs.get_languages()]
+    return times_of(cs)
+
+
 def read_with(fmt, doc, opts=None, lang=None):
-    """run the real reader; Ok(list of [start, end]) or Err(code) or ('non-integer', repr)"""
-    def go():
-        if fmt == "srt":
-            return times_of(SRTReader().read(doc))
-        if fmt == "vtt":
-            strict, shift = opts
-            return times_of(WebVTTReader(ignore_timing_errors=not strict, time_shift_milliseconds=shift).read(doc))
-        if fmt == "mdvd":
-            return times_of(MicroDVDReader().read(doc))
-        if fmt == "dfxp":
-            return times_of(DFXPReader().read(doc), lang)
-        if fmt == "sami":
-            cs = SAMIReader().read(doc)
-            return {l: times_of(cs, l) for l in cs.get_languages()}
-        raise ValueError(fmt)
-    return impl.call(go)
+    """run the real reader (a fresh object); Ok(list of [start, end]) or Err(code) or ('non-integer', repr)"""
+    return impl.call(lambda: extract(fmt, make_reader(fmt, opts).read(doc), lang))
+
+
+# history: one long-lived reader object per format (and per option set) reads every generated document after having
+# read the others; C01's instants must not depend on what a reader object has read before
+REUSED = {}
+
+
+def read_reused(fmt, doc, opts=None, lang=None):
+    """(observation of the long-lived reader, the last documents it read before)"""
+    key = (fmt, tuple(opts) if opts else None)
+    if key not in REUSED:
+        REUSED[key] = [make_reader(fmt, opts), []]
+    reader, hist = REUSED[key]
+    prev = list(hist)
+    r = impl.call(lambda: extract(fmt, reader.read(doc), lang))
+    hist.append(doc)
+    del hist[:-12]
+    return r, prev
+
+
+def check_reuse(acc, fmt, rec, fresh, doc, opts=None, lang=None):
+    """the long-lived reader must return what the fresh reader returns (value or exception class)"""
+    reused, prev = read_reused(fmt, doc, opts, lang)
+    d = acc.res["distribution"]
+    d["reads_with_a_reused_reader_object"] = d.get("reads_with_a_reused_reader_object", 0) + 1
+    same_obs = (isinstance(fresh, Ok) and isinstance(reused, Ok) and fresh.v == reused.v) or \
+               (isinstance(fresh, Err) and isinstance(reused, Err) and fresh.code == reused.code)
+    if not same_obs:
+        v = dict(rec)
+        v.update({"kind": fmt.split("-")[0] + "-reused-reader", "format": fmt, "replay": "reuse", "history": prev,
+                  "document": doc, "opts": plain(opts), "lang": lang,
+                  "what": ("a %s reader object that had read other documents before returned %s; a fresh reader returns %s"
+                           % (fmt, show(reused), show(fresh)))[:500]})
+        acc.res["violations"].append(v)
 
 
 def model_times(m):
@@ -193,6 +238,7 @@ def stream_docs(ctx, acc, fmt, n, gen, code, args_of, opts_of, nontriv):
     for d, o in zip(docs, outs):
         text, model, expected, dom = o[0], model_times(o[1]), o[2], all(x == 1 for x in o[3:])
         obs = read_with(fmt, text, opts_of(d))
+        check_reuse(acc, fmt, {"input": plain(d)}, obs, text, opts_of(d))
         if not dom and fmt == "vtt" and o[3] == 1 and not d[0]:
             dom = True          # unsorted cues are inside the domain of the non-strict reader
         if fmt == "vtt" and o[3] == 1 and o[4] != 1 and d[0]:
@@ -262,6 +308,7 @@ def stream_dfxp(ctx, acc, n):
         # a second language division with its own cues checks that divisions are kept apart
         doc = tg.dfxp_doc([("en", rows), ("fr", [("1s", "2s", None, "autre")])])
         obs = read_with("dfxp", doc, lang="en")
+        check_reuse(acc, "dfxp", {"input": plain(ps)}, obs, doc, None, "en")
         rec = {"input": plain(ps), "document": doc, "opts": None}
         acc.add("dfxp", rec, expected, obs, model, dom)
         if dom:
@@ -284,6 +331,7 @@ def stream_sami(ctx, acc, n):
         starts = ["0" * pad + str(ms) for (pad, ms, _) in syncs]
         doc = tg.sami_doc(nl, syncs, starts)
         r = read_with("sami", doc)
+        check_reuse(acc, "sami", {"input": plain([nl, [[p, ms, sorted(pr.items())] for (p, ms, pr) in syncs]])}, r, doc)
         for li in range(nl):
             o = next(outs)
             ps = tg.sami_lang_ps(syncs, li)
@@ -391,6 +439,7 @@ def stream_dfxp_tree(ctx, acc, n):
         doc = render_dfxp_tree(c[0], o[0])
         model, expected, dom = r_result(o[1]), r_result(o[2]), o[3] == 1
         obs = impl.call(lambda: dict_obs(DFXPReader().read(doc)))
+        check_reuse(acc, "dfxp-tree", {"input": plain(c)}, obs, doc)
         rec = {"input": plain(c), "document": doc, "opts": None}
         compare_dict(acc, "dfxp-tree", rec, expected, obs, model, dom)
         if dom:
@@ -416,6 +465,7 @@ def stream_sami_tree(ctx, acc, n):
         doc = tg.sami_doc(nl, syncs, starts)
         model, expected, dom = r_result(o[0]), r_result(o[1]), o[2] == 1
         obs = impl.call(lambda: dict_obs(SAMIReader().read(doc)))
+        check_reuse(acc, "sami-tree", {"input": None}, obs, doc)
         rec = {"input": plain([nl, [[p, ms, sorted(pr.items())] for (p, ms, pr) in syncs]]), "document": doc, "opts": None}
         compare_dict(acc, "sami-tree", rec, expected, obs, model, dom)
         if dom and nl > 1:
@@ -548,6 +598,7 @@ def stream_raw(ctx, acc, n):
 
 
 def run(ctx):
+    REUSED.clear()
     acc = Acc()
     res = acc.res
     q = ctx.n
@@ -634,6 +685,14 @@ def sweep(ctx, acc):
 
 def replay(ctx, rec):
     fmt = rec["format"]
+    if rec.get("replay") == "reuse":
+        opts = tuple(rec["opts"]) if rec.get("opts") else None
+        reader = make_reader(fmt, opts)
+        for h in rec.get("history", []):
+            impl.call(lambda: reader.read(h))
+        reused = impl.call(lambda: extract(fmt, reader.read(rec["document"]), rec.get("lang")))
+        fresh = read_with(fmt, rec["document"], opts, rec.get("lang"))
+        return show(reused) != show(fresh), [show(reused), show(fresh)]
     if rec.get("replay") == "tree":
         reader = DFXPReader if fmt == "dfxp-tree" else SAMIReader
         obs = impl.call(lambda: dict_obs(reader().read(rec["document"])))
